@@ -291,3 +291,35 @@ Definition views_serve (views : list (ipset * list vrec)) (r : remote) (qname : 
       | Some a => views_loop views a qname qtype 0
       end
   end.
+
+(* -------- the client-policy part of the default chain (session 4): one client query for a name no handler in
+   between knows, as a walk over the handler order read from gen.go. The access list cancels or passes;
+   views answers or passes; every other handler ahead of the cache passes such a query on; at the cache
+   the walk ends: the query is resolved (or answered from the cache). *)
+Inductive chain_outcome := CDrop | CView (view : nat) (recs : list nat) | CResolve.
+Definition n_h_accesslist : list N := [97;99;99;101;115;115;108;105;115;116].
+Definition n_h_views : list N := [118;105;101;119;115].
+Fixpoint chain_walk (order : list (list N)) (acl : ipset) (views : list (ipset * list vrec)) (r : remote)
+         (qname : list N) (qtype : N) : chain_outcome :=
+  match order with
+  | [] => CResolve
+  | h :: rest =>
+      if name_eqb h n_h_accesslist then
+        match acl_serve_remote acl r with
+        | AclDrop => CDrop
+        | AclNext => chain_walk rest acl views r qname qtype
+        end
+      else if name_eqb h n_h_views then
+        match views_serve views r qname qtype with
+        | VAnswer i l => CView i l
+        | VNext => chain_walk rest acl views r qname qtype
+        end
+      else if name_eqb h cache_handler_name then CResolve
+      else chain_walk rest acl views r qname qtype
+  end.
+(* what the walk amounts to when the access list runs ahead of views and views ahead of the cache *)
+Definition chain_serve (acl : ipset) (views : list (ipset * list vrec)) (r : remote) (qname : list N) (qtype : N) : chain_outcome :=
+  match acl_serve_remote acl r with
+  | AclDrop => CDrop
+  | AclNext => match views_serve views r qname qtype with VAnswer i l => CView i l | VNext => CResolve end
+  end.
